@@ -312,6 +312,7 @@ class datetime(_dt, FieldType):
                     arg.second,
                     arg.microsecond,
                     tzinfo,
+                    fold=arg.fold,
                 )
         else:
             obj = _dt.__new__(cls, *args, **kwargs)
